@@ -474,7 +474,7 @@ THEOREM_SITE = {
     "C06_no_overflow_non_unique_types": ["wide"], "C06_string_buffer_terminated": ["longexpr"],
     "C06_error_heap_bounded": ["errbuf"], "C06_error_heap_index": ["errbuf"],
     "C06_nonzero_exit_has_diagnostic": ["exit_discipline"], "C06_zero_exit_no_error_nothing_buffered": ["exit_discipline"],
-    "C06_run_ends_and_abort_after_diagnostic": ["exit_discipline"], "C06_every_exit_site_prints": ["exit_discipline"],
+    "C06_run_ends_and_abort_after_diagnostic": ["exit_discipline"], "C06_exit_status_independent_of_buffering": ["exit_discipline"], "C06_every_exit_site_prints": ["exit_discipline"],
     "C06_rename_search_terminates": ["use_cycle"], "C06_rename_resolution_terminates": ["use_cycle"], "C06_import_graph_walks_terminate": ["use_cycle"], "C06_no_overflow_scan_buffers": ["scan_buffers"], "C06_no_overflow_open_comment": ["open_comment"],
     "C06_no_overflow_schema_file_name": ["schema_file", "schema_path"], "C06_schema_path_leaf_in_range": ["schema_path"],
     "C06_no_overflow_escape_buffer": ["escape_buffer"], "C06_no_overflow_exprto_python": ["exprto_python"],
